@@ -1,7 +1,9 @@
 (* Run.v — the executable instance: Api.v's operations with the Flocq float oracle. *)
-From EZ Require Import Base Bytes Types Api Float32.
+From EZ Require Import Base Bytes Types Api Float32 Enc Dec.
 
 Definition step_x : state -> op -> res state unit :=
   step f_key_impl f_tosize_impl f_div_impl f_is_zero_impl.
 Definition update_header_x (have_data : bool) : state -> res state unit :=
   update_header f_key_impl f_tosize_impl f_div_impl have_data.
+Definition load_x (file : list N) : outcome state := load f_key_impl f_tosize_impl f_div_impl file.
+Definition save_x (s : state) : outcome (list N) := save s.
